@@ -607,3 +607,15 @@ def born_vector(cx, x, pairs):
     """list of per-schedule reference distributions of the unknown x for the schedule list"""
     born = cx.born_all(x, sorted(set(pairs)))
     return [born[p] for p in pairs]
+
+
+def rank_verdict_in_band(mat, ncols):
+    """True when numpy's default rank decision on `mat` is taken at rounding-noise level: the ncols-th singular value
+    is above a tenth of matrix_rank's threshold smax*max(M,N)*eps although the reference rank is smaller (verdicts are
+    only asserted outside the band around the threshold in force)"""
+    mat = np.asarray(mat, dtype=float)
+    if mat.ndim != 2 or min(mat.shape) < ncols:
+        return False
+    sv = np.linalg.svd(mat, compute_uv=False)
+    thr = sv[0] * max(mat.shape) * np.finfo(float).eps
+    return bool(sv[ncols - 1] > thr / 10 and sv[ncols - 1] < 1e-9 * sv[0])
